@@ -145,6 +145,5 @@ Definition in_domain (k : kind) (op : cmpop) (r : ref) (cells : list val) : bool
   | RSet vs => eq_or_ne op && forallb (member_dom k cells) vs
   | RPred _ => eq_or_ne op
   | RType t =>
-      (* IntColumn answers `== object` with no row (it tests `other is int`); reported, excluded *)
-      eq_or_ne op && negb (match k, t with KInt, TObject => true | _, _ => false end)
+      eq_or_ne op
   end.
